@@ -244,6 +244,7 @@ LineViol(st, st1, e) ==
     [] e.ev = "run_end" -> EndViol(st, e) \cup TwinViol(st, e)
     [] e.ev = "daemon_end" ->
          (IF e.sessions_seen < e.sessions_wanted THEN {V(PropOf(st), "DaemonStoppedRunning", "fewer runs than periods elapsed", e)} ELSE {})
+         \cup (IF e.exit_code # 0 THEN {V(PropOf(st), "DaemonDidNotExitCleanlyOnSigterm", "exit status " \o ToString(e.exit_code), e)} ELSE {})
          (* a panic that is contained (an unsupported construct in one policy) prints a message and nothing else *)
          \cup (IF e.panic_at # "" /\ e.exit_code # 0 THEN {V(PropOf(st), "DaemonPanicked", "", e)} ELSE {})
     [] OTHER -> {}
